@@ -21,7 +21,7 @@ def _cases_with_corpus(mod, tier, seed):
 def evaluate(mod, cases, tag=""):
     """run the implementation and the Coq drivers on the cases.
     returns dict(n, lists, obs, errors)"""
-    obs = mod.run_impl(cases) if hasattr(mod, "run_impl") else core.run_impl_parallel(mod.PROP, cases)
+    obs = mod.run_impl(cases) if hasattr(mod, "run_impl") else core.run_impl_parallel(getattr(mod, "IMPL", mod.PROP), cases)
     lits = [mod.literal(c, o) for c, o in zip(cases, obs)]
     reports, errors = core.run_shards(mod.PROP, mod.HEADER, mod.CASE_TYPE, mod.DRIVER, lits,
                                       shard_size=getattr(mod, "SHARD", 400), tag=tag)
@@ -59,7 +59,7 @@ def run(mod, tier, seed):
     t0 = time.time()
     prop = mod.PROP
     findings = core.load_known_findings()
-    binfo = core.build(prop)
+    binfo = core.build(prop, getattr(mod, "CORR", None))
     lines = []
     broken = []          # obligations that no longer check
     if not binfo["model_ok"]:
